@@ -400,12 +400,12 @@ func (u *Unit) enterBlock(s *State, f *Frame) bool {
 	}
 	if mods.eff.all {
 		for k, h := range s.Heaps {
-			s.Heaps[k] = u.fresh(s, "H_"+k, h.Sort)
+			s.Heaps[k] = u.havocHeap(s, k, h)
 		}
 	} else {
 		for k := range mods.eff.heaps {
 			if h, ok := s.Heaps[k]; ok {
-				s.Heaps[k] = u.fresh(s, "H_"+k, h.Sort)
+				s.Heaps[k] = u.havocHeap(s, k, h)
 			}
 		}
 	}
